@@ -5,13 +5,14 @@ from props import trxcon_part, randburst_part
 ID = "C03"
 LEVEL = "proof"
 LEAN_MODULES = ["OsmoVerif.Props.C03"] + (["OsmoVerif.Props.Trxcon"] if ID == "C05" else []) + (randburst_part.LEAN_MODULES if ID == "C10" else [])
-LEAN_MODEL_MODULES = wc.LEAN_MODEL_MODULES + (trxcon_part.LEAN_MODEL_MODULES if ID == "C05" else []) + (randburst_part.LEAN_MODEL_MODULES if ID == "C10" else [])
-DRIVER_MODULES = wc.DRIVER_MODULES + (["TrxconIf"] if ID == "C05" else []) + (randburst_part.DRIVER_MODULES if ID == "C10" else [])
-ASSUMPTIONS = wc.ASSUMPTIONS + [] + (randburst_part.ASSUMPTIONS if ID == "C10" else [])
+LEAN_MODEL_MODULES = wc.LEAN_MODEL_MODULES + (trxcon_part.LEAN_MODEL_MODULES if ID == "C05" else []) + (randburst_part.LEAN_MODEL_MODULES if ID == "C10" else []) + \
+    (["OsmoVerif.Model.WorldSched"] if ID == "C03" else [])
+DRIVER_MODULES = wc.DRIVER_MODULES + (["TrxconIf"] if ID == "C05" else []) + (randburst_part.DRIVER_MODULES if ID == "C10" else []) + (["WorldSched"] if ID == "C03" else [])
+ASSUMPTIONS = wc.ASSUMPTIONS + ['schedules: OsmoVerif.Model.WorldSched splits one tick of the clock thread into atomic actions (begin | read running | locked section | fwd-begin | fwd-read of one recipient | fwd-handle = handle_data_msg of that recipient | fwd-end | stale report | done | clck_src increment); an operation of the socket thread is ONE action; tie: harness/py/sched_harness.py runs the real send_clck_ind in a second OS thread, parks it at a boundary (pre-tick, pre-lock, post-lock, pre-forward, pre-handle: each a boundary between two actions of the model), runs one real socket operation to completion there; every such schedule is also computed by Sched.exec (driver verb sched.run) and compared', "not forced by the schedule harness (covered only by the theorems about the model, or outside the model): preemption inside an atomic action of the model (inside a Python statement; between get_tx_freq and rf_muted; between the reads of running / get_rx_freq / _hdr_ver of one recipient; inside handle_data_msg), preemption inside a socket-thread operation, the model's boundaries between two skipped recipients, around stale reports and before the clck_src increment; stop()/join() of the clock thread at the last POWEROFF (inert thread object in the harness)"] + (randburst_part.ASSUMPTIONS if ID == "C10" else [])
 MANIFEST = {
-    "text": 'Lean theorems: every accepted burst has exactly one outcome (emitted at the tick of its own FN, reported stale, cleared by power-off) or is still queued, for every history incl. clock jumps and the hyperframe wrap (modular comparison), and in every reachable state of an interleaving semantics of socket-thread operations with the atomic actions of a tick; correspondence of queues, stale reports and emissions; oracle judges routing decisions, stale counts and queue lengths on the real code',
-    "note": 'trusted: Lean kernel (+propext, Classical.choice, Quot.sound); translators gen/world.py, gen/py_unicode.py, gen/trxd_consts.py, gen/hopping.py; the world harness (in-memory sockets, the real CLCKGen._worker loop in lock step in its own OS thread, deterministic randint) and the property reference lib/worldspec.py; modelled not verified: UDP/select, OS scheduling below whole operations, time.sleep, logging',
-    "technique": 'Lean 4 proof over the executable world model; differential correspondence of whole histories against the real FakeTRX objects; black-box property reference as failing-input oracle',
+    "text": 'Lean theorems: every accepted burst has exactly one outcome (emitted at the tick of its own FN, reported stale, cleared by power-off) or is still queued, for every history incl. clock jumps and the hyperframe wrap (modular comparison), and in every reachable state of an interleaving semantics of socket-thread operations with the atomic actions of a tick (forward_msg split per recipient into the reads and the handle_data_msg call: every boundary the schedule harness can force is a boundary of the model); what handle_data_msg does for a recipient powered off / retuned / re-versioned between the reads and the call is stated exactly (called with the message built earlier, no queue or power state touched); correspondence of queues, stale reports and emissions on sequential histories AND of every forced schedule (one socket operation x one tick at every boundary) between the real code and Sched.exec; oracle judges routing decisions, stale counts and queue lengths on the real code, and exactly-once / on-time / nothing-vanishes / queue-empty-after-POWEROFF / no-exception under every forced schedule',
+    "note": 'trusted: Lean kernel (+propext, Classical.choice, Quot.sound); translators gen/world.py, gen/py_unicode.py, gen/trxd_consts.py, gen/hopping.py; the world harness (in-memory sockets, the real CLCKGen._worker loop in lock step in its own OS thread, deterministic randint), the schedule harness (gate on Transceiver.clck_tick, the queue lock, BurstForwarder.forward_msg, FakeTRX.handle_data_msg; inert clock thread object) and the property reference lib/worldspec.py; modelled not verified: UDP/select, OS scheduling below the atomic actions of Model/WorldSched (socket operations are whole actions), time.sleep, logging',
+    "technique": 'Lean 4 proof over the executable world model and its interleaving semantics; differential correspondence of whole histories and of forced thread schedules against the real FakeTRX objects; black-box property reference as failing-input oracle',
     "design_ref": "DESIGN.md section 5 C03",
 }
 CORR_PROFILES = ['traffic', 'wrap', 'mixed']
@@ -26,6 +27,9 @@ def gen(run):
 
 def correspond(run, corr):
     wc.correspond(run, corr, CORR_PROFILES, 10000, 150000)
+    if ID == "C03":
+        # interleaving model vs the real code under forced schedules (one socket-thread operation x one tick, every boundary)
+        wc.sched_correspond(run, corr)
     if ID == "C05":
         trxcon_part.correspond(run, corr, parts=("cmd", "rsp"))
     if ID == "C10":
@@ -33,10 +37,12 @@ def correspond(run, corr):
 
 
 def search(run, corr, deep):
-    found = wc.oracle(run, corr, deep, ID, ORACLE_PROFILES, 6000, 100000)
+    found = 0
     if ID == "C03":
         # thread schedules: one socket-thread operation racing one tick at every atomic-action boundary
         found += wc.sched_oracle(run, corr, deep)
+    # the history oracle searches deeper when a proof or a tie broke, unless the schedule oracle has already produced the failing schedule
+    found += wc.oracle(run, corr, deep and not found, ID, ORACLE_PROFILES, 6000, 100000)
     if ID == "C05":
         # trxcon side: real trx_if.c command emission / response parser, and the cross run with the real toolkit
         found += trxcon_part.oracle(run, corr, deep, parts=("cmd", "rsp"))
